@@ -123,10 +123,12 @@ namespace plan
       g_rel(r, op, K);
       g_rel(r, op, K);
     }
+    else if (name == "touch")
+      op.a = {static_cast<long>(r.below(6)), static_cast<long>(r.below(6)), static_cast<long>(r.chance(3, 4) ? 1 : r.below(4))};
     else if (name == "pin")
       op.a = {static_cast<long>(r.below(6)), static_cast<long>(r.below(5)), static_cast<long>(r.below(3)), static_cast<long>(r.below(96))};
     else if (name == "spred")
-      op.a = {static_cast<long>(r.below(4)), static_cast<long>(r.below(2))};
+      op.a = {static_cast<long>(r.below(4)), static_cast<long>(r.below(2)), static_cast<long>(r.below(3))};
     else if (name == "cut")
       op.a = {static_cast<long>(r.below(2))};
     else if (name == "svclass")
@@ -354,7 +356,7 @@ namespace plan
     if (causal)
       w.add("goal", 10), w.add("fact", 8), w.add("disj", prop == "C02" || prop == "C03" || prop == "C19" ? 5 : 2), w.add("pin", prop == "C19" ? 5 : 1);
     if (sv)
-      w.add("svinst", 5), w.add("goal", 8), w.add("fact", 6), w.add("horizon", 2), w.add("ovar", 2);
+      w.add("svinst", 5), w.add("goal", 8), w.add("fact", 6), w.add("horizon", 2), w.add("ovar", 2), w.add("touch", prop == "C04" ? 4 : 2);
     if (causal || sv || rr)
       w.add("origin", prop == "C06" ? 3 : 1);
     if (rr)
